@@ -104,3 +104,16 @@ namespace wit { inline void use_tuple_ref_move(frg::tuple<wit::Elem &, int> &&r)
 	frg::tuple<wit::Elem, int> v(std::move(r));
 	(void)v;
 } }
+// a move-only alternative: moving a variant must MOVE the held alternative (a construction that quietly copies it does not
+// compile for this type -- the well-formedness rule W1 then reports the header line)
+namespace wit {
+struct MoveOnly { MoveOnly(); MoveOnly(MoveOnly &&); MoveOnly &operator=(MoveOnly &&); MoveOnly(const MoveOnly &) = delete; MoveOnly &operator=(const MoveOnly &) = delete; ~MoveOnly(); };
+inline void use_variant_moves(frg::variant<int, MoveOnly> &a) {
+	frg::variant<int, MoveOnly> b{std::move(a)};
+	a = std::move(b);
+}
+inline void use_optional_moves(frg::optional<MoveOnly> &a) {
+	frg::optional<MoveOnly> b{std::move(a)};
+	a = std::move(b);
+}
+}
